@@ -450,6 +450,7 @@ type sReq struct {
 	NodeID  string `json:"node,omitempty"` // "" = the association's node id
 	Cause   uint8  `json:"cause,omitempty"`
 	NoCause bool   `json:"nocause,omitempty"`
+	TSOff   int64  `json:"tsoff,omitempty"` // assoc: seconds added to the peer's Recovery Time Stamp (a restarted peer)
 
 	CreatePDR []sPDR   `json:"cpdr,omitempty"`
 	CreateFAR []sFAR   `json:"cfar,omitempty"`
@@ -552,7 +553,7 @@ func (r *sReq) build(c *vConn) *vMsg {
 	switch r.Kind {
 	case kAssoc:
 		m.Type = message.MsgTypeAssociationSetupRequest
-		m.IEs = []*vIE{vNodeIDIE(node), vFromIE(ie.NewRecoveryTimeStamp(time.Unix(1600000000, 0)))}
+		m.IEs = []*vIE{vNodeIDIE(node), vFromIE(ie.NewRecoveryTimeStamp(time.Unix(1600000000+r.TSOff, 0)))}
 	case kHB:
 		m.Type = message.MsgTypeHeartbeatRequest
 		m.IEs = []*vIE{vFromIE(ie.NewRecoveryTimeStamp(time.Unix(1600000000, 0)))}
